@@ -208,6 +208,14 @@ pub assume_specification [str::trim_end] (s: &str) -> (r: &str) ensures r@ == tr
     b.slice_fn('file_line', 'pub fn file_line(it: &str) -> (r: String)', '    ' + ce, 'main.rs::obtain_input closure |it| of `file_content.lines().map(..)`', props=['C07', 'C12'],
                extra_rules=[('R4', r'\b(it(?:\.\w+\(\))*)\.to_string\(\)', r'vx_str_to_string(\1)', '&str -> String copy')],
                clauses=[Clause('cli.file_line_is_kept_as_it_is', 'r@ == it@', ['C12'])])
+    # `-f -`: the file name arrives on standard input; it is used without the surrounding white space (the line feed a shell appends) and nothing else is done to it
+    mpath = re.search(r'PathBuf::from\(([^;]*?)\)\n', oi)
+    if not mpath: raise X.LostAnchor('main.rs::obtain_input: PathBuf::from(..) of the file name read from standard input')
+    b.emit("""pub uninterp spec fn path_of(text: Seq<char>) -> PathBuf;
+#[verifier::external_body] pub fn vx_path_from(s: &str) -> (r: PathBuf) ensures r == path_of(s@) { unimplemented!() }""")
+    b.slice_fn('stdin_file_name', 'pub fn stdin_file_name(stdin_file_path: String) -> (r: PathBuf)', '    ' + mpath.group(0).strip(), 'main.rs::obtain_input expression `PathBuf::from(stdin_file_path.trim())`', props=['C07', 'C12'],
+               extra_rules=[('R19', r'PathBuf::from\(', 'vx_path_from(', 'PathBuf::from(&str): the path with that text (path_of, uninterpreted)')],
+               clauses=[Clause('cli.file_name_from_stdin_is_trimmed_and_otherwise_kept', 'r == path_of(trimmed(stdin_file_path@, 0))', ['C12'])])
     b.emit('} // verus!\nimpl std::fmt::Debug for Error { fn fmt(&self, f: &mut std::fmt::Formatter<\'_>) -> std::fmt::Result { unimplemented!() } }\nfn main() {}')
     b.trusted += ['clap attributes are stripped (R0): clap is assumed to fill Cli from the command line as the attribute text says and to apply value_parser',
                   'adjacent statement chunks of handle_input run back to back (sequential composition of slices)',
